@@ -44,7 +44,7 @@ class Path:
 
 
 class State:
-    __slots__ = ("store", "variants", "events", "facts", "ids", "epoch", "member", "visits", "steps", "lenver", "moved", "slack", "lencount", "subs")
+    __slots__ = ("store", "variants", "events", "facts", "ids", "epoch", "member", "visits", "steps", "lenver", "moved", "slack", "lencount", "subs", "empty", "sumge")
 
     def __init__(self):
         self.store = {}
@@ -61,6 +61,8 @@ class State:
         self.slack = {}
         self.lencount = {}
         self.subs = {}
+        self.empty = {}
+        self.sumge = {}
 
     def fork(self):
         s = State.__new__(State)
@@ -78,6 +80,8 @@ class State:
         s.slack = dict(self.slack)
         s.lencount = dict(self.lencount)
         s.subs = dict(self.subs)
+        s.empty = dict(self.empty)
+        s.sumge = dict(self.sumge)
         return s
 
     def fresh(self):
@@ -637,6 +641,7 @@ class Interp:
         if known is None:
             known = self.models.decide_cond(self, st, c)
         targets = list(zip(vals, ts)) + [(None, t["otherwise"])]
+        decided_by_model = known is not None and not any(f[0] == "cond" and f[1] == c for f in st.facts)
         for v, tb in targets:
             if known is not None:
                 if v is not None and str(known) != str(v):
@@ -644,13 +649,17 @@ class Interp:
                 if v is None and str(known) in [str(x) for x in vals]:
                     continue
             s2 = st.fork() if (known is None) else st
+            outcome = v if v is not None else ("not", tuple(vals))
             if known is None:
-                outcome = v if v is not None else ("not", tuple(vals))
                 s2.facts.append(("cond", c, outcome))
                 self.event(s2, fr, {"ev": "branch", "cond": c, "outcome": outcome, "ty": t.get("ty"), "ln": t.get("ln"), "bb": bb})
                 tr = self.models._truth(outcome)
                 if tr is not None:
                     self.models.note_sum_fact(self, s2, c, tr)
+                    if self.models.note_empty_fact(self, s2, c, tr):
+                        continue   # infeasible: every resident list empty although their sum is >= size >= 1
+            elif decided_by_model:
+                self.event(s2, fr, {"ev": "branch", "cond": c, "outcome": outcome, "ty": t.get("ty"), "ln": t.get("ln"), "bb": bb, "decided": True})
             outs.append((s2, tb))
         return outs
 
@@ -927,8 +936,7 @@ class Models:
         """`len(A)+len(B) < size` (all resident lists, current versions) gives slack 1"""
         if not (isinstance(c, tuple) and c[0] == "bin" and c[1] in ("Lt", "Ge")):
             return
-        if (c[1] == "Lt") != truth:
-            return
+        is_lt = (c[1] == "Lt") == truth
         s, bound = c[2], c[3]
         if not (isinstance(s, tuple) and s[0] == "bin" and s[1] == "Add"):
             return
@@ -946,7 +954,45 @@ class Models:
         if not (isinstance(bound, tuple) and bound[0] == "load" and bound[1][0] == "H" and bound[1][1] == root[0]
                 and bound[1][2] == root[1] + ("size",)):
             return
-        st.slack[root] = max(st.slack.get(root, 0), 1)
+        if is_lt:
+            st.slack[root] = max(st.slack.get(root, 0), 1)
+        else:
+            # sum >= size (and size >= 1 by construction): at least one of the summed lists is non-empty
+            st.sumge[root] = tuple((l[1], l[2]) for l in lens)
+
+    def note_empty_fact(self, interp, st, c, truth):
+        """records emptiness facts of lists; returns True if the path became infeasible
+        (all resident lists of a cache are empty while their length sum was established >= size >= 1)"""
+        if not (isinstance(c, tuple) and c[0] == "bin"):
+            return False
+        op, a, b = c[1], c[2], c[3]
+        Xmap = None
+        # (*X.tail).prev != X.head  is false  /  == is true
+        for x, y in ((a, b), (b, a)):
+            if isinstance(x, tuple) and x[0] == "load" and x[1][0] == "H" and x[1][2] in (("prev",), ("next",)) and isinstance(y, tuple) and y[0] == "load":
+                s_, h_ = x[1][1], y
+                if isinstance(s_, tuple) and s_[0] == "load" and s_[1][0] == "H" and s_[1][2][-1:] in (("tail",), ("head",)) \
+                        and h_[1][0] == "H" and h_[1][2][-1:] in (("head",), ("tail",)) and s_[1][1] == h_[1][1] and s_[1][2][:-1] == h_[1][2][:-1]:
+                    if (op == "Ne" and not truth) or (op == "Eq" and truth):
+                        Xmap = ("H", s_[1][1], s_[1][2][:-1] + ("map",))
+            # len(X) == 0 true / len(X) > 0 false / len != 0 false
+            if isinstance(x, tuple) and x[0] == "len" and const_int(y) == 0 and x[2] == st.lenver.get(x[1], 0):
+                xo = op if x is a else {"Lt": "Gt", "Gt": "Lt", "Le": "Ge", "Ge": "Le"}.get(op, op)
+                if (xo == "Eq" and truth) or (xo in ("Gt", "Ne") and not truth) or (xo == "Le" and truth):
+                    Xmap = x[1]
+        if Xmap is None:
+            return False
+        st.empty[Xmap] = st.lenver.get(Xmap, 0)
+        if len(Xmap[2]) < 2:
+            return False
+        root = (Xmap[1], Xmap[2][:-2])
+        sg = st.sumge.get(root)
+        if not sg:
+            return False
+        for (lm, ver) in sg:
+            if st.lenver.get(lm, 0) != ver or st.empty.get(lm) != ver:
+                return False
+        return True
 
     def opaque_effects(self, interp, st, fr, info, ev):
         pass
@@ -1356,6 +1402,9 @@ class Models:
         own = self._node_of_key(ks)
         cid = st.fresh()
         known = st.member.get((X, ks))
+        if known is None and own is not None:
+            # pruning rule P1 applied to a node's own key: a list member's key is in that list's index (I_list)
+            known = True
         outs = []
         for present in (True, False):
             if known is not None and known != present:
@@ -1431,7 +1480,10 @@ class Models:
         k = info["args"][1]
         ks = k[3][0] if isinstance(k, tuple) and k[0] == "agg" and k[1] == "adt" and k[2][0].endswith("KeyRef") else k
         cid = st.fresh()
-        interp.event(st, fr, {"ev": "call", "q": info["q"], "hm": "insert", "recv": X, "keysrc": ks, "key": k, "value": info["args"][2], "id": cid,
+        slack = None
+        if X[0] == "H" and len(X[2]) >= 2 and X[2][-2] in self.resident_bound_fields:
+            slack = st.slack.get((X[1], X[2][:-2]), 0)
+        interp.event(st, fr, {"ev": "call", "q": info["q"], "hm": "insert", "recv": X, "keysrc": ks, "key": k, "value": info["args"][2], "id": cid, "slack": slack,
                               "args": info["args"], "ln": info["ln"], "bb": info["bb"], "unwind": info["unwind"], "user": True, "f": info["f"]})
         st.member[(X, ks)] = True
         st.lenver[X] = st.lenver.get(X, 0) + 1
